@@ -164,7 +164,7 @@ theorem iter_fields (fields : List (Res Bytes)) (items : List Item)
 
 theorem uint_spec (v : Nat) (h : v < 2 ^ 256) : Rlp.uint v = .ok (encode (ofNat v)) := by
   have hlen := beBytes_length_le_32 v h
-  rw [ofNat, encode_str]
+  rw [Rlp.uint, beStripped_32 v h, ofNat, encode_str]
   exact Rlp.bytes_spec _ (by omega)
 
 theorem bytes_spec' (b : Bytes) (h : b.length < 2 ^ 64) : Rlp.bytes b = .ok (encode (.str b)) := by
